@@ -126,3 +126,6 @@ func (dpos *DPoS) VerifBPIDs() []types.PeerID {
 	}
 	return out
 }
+
+// VerifCluster exposes the node's producer cluster (membership scan of the C09 world).
+func (dpos *DPoS) VerifCluster() *bp.Cluster { return dpos.bpc }
